@@ -159,6 +159,17 @@ pub fn c18_check(scn: &Scenario, h: &History) -> Outcome {
     let Some((d, p)) = prepare("C18", false, scn, h, &mut out) else { return out };
     note_others(&p, &[], &mut out);
     let s = 0;
+    // notifications discarded by a drop-policy *subscriber* channel share the dropped-actions counter
+    // (section 1): such scenarios (borrowed generators) are outside the balance equations
+    if scn.subs.iter().any(|x| matches!(x.kind, SubKind::Channeled { pol, .. } if pol != Pol::Block)) {
+        return out;
+    }
+    // follow-ups of Effect::Action are dispatched by the store itself at an unobservable moment;
+    // under a drop policy they take part in the drop accounting, so the number of dispatches made
+    // while open is not observable there (the own generator uses them with BlockOnFull only)
+    if scn.stores[s].policy != Pol::Block && scn.actions.iter().any(|a| a.store == s && a.effects.iter().any(|(_, e)| matches!(e.kind, EffKind::Action(_)))) {
+        return out;
+    }
     let mut v = vec![];
     let nsnaps = monotone(&d, s, &mut v);
     // the last snapshot taken after the stop
@@ -166,7 +177,7 @@ pub fn c18_check(scn: &Scenario, h: &History) -> Outcome {
     let fin = d
         .ops
         .values()
-        .filter(|o| o.th == 0 && o.inv > stop_ret && matches!(d.op(o.th, o.ix), Some(Op::GetMetrics { .. })))
+        .filter(|o| o.th == 0 && o.inv > stop_ret && matches!(d.op(o.th, o.ix), Some(Op::GetMetrics { store }) if *store == s))
         .max_by_key(|o| o.inv)
         .and_then(|o| match &o.res {
             Some(Res::Metrics(m)) => Some(*m),
@@ -215,6 +226,7 @@ pub static C18: Profile = Profile {
     liveness: false,
     enumerate: None,
     extra: None,
+    borrow: &["C01", "C02", "C03", "C04", "C05", "C06", "C07", "C08", "C09", "C10", "C11", "C12", "C13", "C14", "C15", "C19"],
     assumptions: &[
         "no drop-policy channeled subscribers are attached (their discards share the store's dropped-actions counter)",
         "time sums and min/max gauges are not event counters and are not checked",
@@ -458,5 +470,6 @@ pub static C19: Profile = Profile {
     liveness: true,
     enumerate: None,
     extra: None,
+    borrow: &[],
     assumptions: &["only store 0 is stopped early; store 1 is stopped by the epilogue"],
 };
